@@ -282,6 +282,9 @@ func run(r *lib.Run) {
 	if r.Counter("hearsay_requests_with_withheld_dead_records") == 0 {
 		r.Warn("hearsay group: no request found a dead record in a covered bucket of R's table")
 	}
+	if r.Counter("hearsay_offered_contacted_by_R_and_answered") == 0 {
+		r.Warn("hearsay group: the peer R pinged itself was never offered (the oracle's 'R heard from it' branch was not exercised)")
+	}
 	if n := r.Counter("resp_talk_errors"); n > int64(wantResp/20) {
 		r.Warn("%d talk requests failed", n)
 	}
